@@ -104,7 +104,13 @@ func VerifC02Loops() {
 	it := iter(vrt.Choice("iter", vrt.Param("niter", NIter)))
 	vrt.Note("iterator", Src(it))
 	p.steps("init", false, asg("acc", node.List{}))
-	switch vrt.Choice("consumer", 14) {
+	switch vrt.Choice("consumer", 15) {
+	case 14: // a generator built from generators is abandoned by a return; loops follow in the same statement
+		zip3 := node.For{VarRefs: node.List{Elems: []node.Type{nm("a"), nm("b"), nm("c")}},
+			Iterators: node.List{Elems: []node.Type{call("fromto", ilit(0), ilit(3)), call("fromto", ilit(10), ilit(13)), call("fromto", ilit(20), ilit(23))}},
+			Body: asg("r", bin("+", nm("r"), node.List{Elems: []node.Type{node.List{Elems: []node.Type{nm("a"), nm("b"), nm("c")}}}}))}
+		p.steps("def", false, asg("firstof", fn(blk(forl("e", call("map", nm("inc"), lam(call("filt", nm("pos"), nm("two")))), ret(nm("e"))), forl("e", call("chain", nm("two"), nm("two")), ret(nm("e"))), ilit(-1)))))
+		p.Step(blk(asg("r", node.List{}), asg("f1", call("firstof")), forl("e", it, call("write", nm("e"))), zip3, zip3, node.List{Elems: []node.Type{nm("f1"), nm("r")}}), true, "zips-after-abandoned-composed-generator")
 	case 12: // a function that returns out of a loop after some rounds is called before a loop and
 		// again in that loop's body, all in one statement
 		rounds := vrt.Choice("rounds", 3)
